@@ -16,6 +16,8 @@ pub const REMOVE: u64 = 1 << 63;
 pub const SWAP: u64 = 1 << 62;
 /// a round that takes the update lock, looks at the map and gives the lock back without replacing
 const ABANDON: u64 = 1 << 60;
+/// a round that runs from a destructor while a (caught) panic unwinds the updater thread
+const UNWIND: u64 = 1 << 59;
 type Atomic = GuestMemoryAtomic<Mem>;
 
 fn region(start: u64, tag: u8) -> Arc<GuestRegionMmap<()>> {
@@ -117,7 +119,9 @@ fn execute(cfg: &Config, ex: &mut Explorer) -> ExecResult {
     let mut final_tag: HashMap<u64, u8> = [(0x10_0000u64, 1u8)].into_iter().collect();
     for ups in &cfg.updaters {
         let mut regs: Vec<(Option<u64>, Option<Arc<GuestRegionMmap<()>>>)> = Vec::new(); // (remove this start, insert this region)
+        let unwinding: Vec<bool> = ups.iter().map(|s| s & UNWIND != 0).collect();
         for s in ups {
+            let s = &(*s & !UNWIND);
             if s & ABANDON != 0 {
                 regs.push((None, None));
                 continue;
@@ -139,7 +143,43 @@ fn execute(cfg: &Config, ex: &mut Explorer) -> ExecResult {
         let lg = log.clone();
         let me = tid;
         bodies.push(Box::new(move || {
-            for r in regs {
+            for (round, r) in regs.into_iter().enumerate() {
+                if unwinding[round] {
+                    // the same update, carried out by a destructor during unwinding
+                    let mut r = Some(r);
+                    let mut body = || {
+                        let r = r.take().unwrap();
+                        let guard = a.lock().unwrap_or_else(|e| e.into_inner());
+                        let cur = a.memory();
+                        step("derive-new-map");
+                        let mut new: Option<Mem> = None;
+                        if let Some(start) = r.0 {
+                            new = Some(cur.remove_region(GuestAddress(start), 4096).unwrap().0);
+                        }
+                        if let Some(reg) = r.1 {
+                            new = Some(match &new {
+                                Some(m) => m.insert_region(reg).unwrap(),
+                                None => cur.insert_region(reg).unwrap(),
+                            });
+                        }
+                        let new = new.unwrap();
+                        let regions = read_map(&new, &HashSet::new()).unwrap_or_default();
+                        drop(cur);
+                        guard.replace(new);
+                        lg.lock().unwrap().push(Log::Published { by: me, regions });
+                    };
+                    struct OnDrop<'a>(&'a mut dyn FnMut());
+                    impl Drop for OnDrop<'_> {
+                        fn drop(&mut self) {
+                            (self.0)()
+                        }
+                    }
+                    let _ = crate::crash::quiet_unwind(|| {
+                        let _d = OnDrop(&mut body);
+                        std::panic::panic_any(0u8);
+                    });
+                    continue;
+                }
                 let guard = a.lock().unwrap();
                 let cur = a.memory();
                 step("derive-new-map");
@@ -719,6 +759,9 @@ pub fn run(tier: Tier, replay: Option<String>) -> i32 {
         Config { name: "abandoned-update-then-update-vs-updater", updaters: vec![vec![ABANDON, 0x20_0000], vec![0x30_0000]], readers: 0, bound: None, share_handle: false },
         Config { name: "abandoned-update-then-update-vs-updater-one-shared-handle", updaters: vec![vec![ABANDON, 0x20_0000], vec![0x30_0000]], readers: 0, bound: None, share_handle: true },
         Config { name: "abandoned-update-then-update-vs-updater-vs-reader", updaters: vec![vec![ABANDON, 0x20_0000], vec![0x30_0000]], readers: 1, bound: Some(if thorough { 4 } else { 2 }), share_handle: false },
+        // an update carried out from a destructor during unwinding, against an ordinary updater
+        Config { name: "update-while-unwinding-vs-updater", updaters: vec![vec![UNWIND | 0x20_0000], vec![0x30_0000]], readers: 0, bound: None, share_handle: false },
+        Config { name: "update-while-unwinding-vs-updater-vs-reader", updaters: vec![vec![UNWIND | 0x20_0000], vec![0x30_0000]], readers: 1, bound: Some(if thorough { 4 } else { 2 }), share_handle: true },
         // the published map passes through the empty map
         Config { name: "remove-only-region-then-insert-vs-reader", updaters: vec![vec![REMOVE | 0x10_0000, 0x20_0000]], readers: 1, bound: if thorough { None } else { Some(3) }, share_handle: false },
         Config { name: "remover-to-empty-vs-inserter-vs-reader", updaters: vec![vec![REMOVE | 0x10_0000], vec![0x30_0000]], readers: 1, bound: Some(if thorough { 4 } else { 2 }), share_handle: true },
